@@ -58,6 +58,61 @@ def _defines(cls_key, name):
     return any(isinstance(s, ast.FunctionDef) and s.name == name for s in node.body)
 
 
+def class_aliases(cls_key):
+    """Class-level aliases  visit_X = some_method  in the CURRENT source of the class."""
+    try:
+        node, _, _, _ = extract.find(cls_key)
+    except extract.ExtractError:
+        return {}
+    out = {}
+    for s in node.body:
+        if isinstance(s, ast.Assign) and len(s.targets) == 1 and isinstance(s.targets[0], ast.Name) \
+                and isinstance(s.value, ast.Name):
+            out[s.targets[0].id] = s.value.id
+    return out
+
+
+def class_dispatch_obligations(w, key, c, res):
+    """For a visitor specified by a hypothesis: ast.NodeVisitor.visit sends a node of class X to
+    visit_X if the class has one and to generic_visit otherwise.  (1) every contract registered as
+    an alias (visit_X = method) must find that alias in the current class body; (2) for every node
+    class X WITHOUT a visit_X, the precondition of generic_visit must follow from the hypothesis'
+    precondition - a binder class that loses its visit method is then noticed."""
+    cls_key = c["self"]
+    cc = w.classes[cls_key]
+    aliases = class_aliases(cls_key)
+    for k2, c2 in w.contracts.items():
+        if c2.get("self") == cls_key and c2.get("alias_of"):
+            name = k2.split(".")[-1]
+            ok = aliases.get(name) == c2["alias_of"]
+            ob = symex.Obligation(key, "post", f"alias:{name}-is-{c2['alias_of']}", [],
+                                  z3.BoolVal(ok), None,
+                                  note=f"the class body binds {name} to {c2['alias_of']}")
+            ob.trivial = ok
+            res.obligations.append(ob)
+    fnode, _, _, tree = extract.find(cls_key)
+    defined = set(method_names(w, cls_key)) | set(aliases)
+    for X in w.S.node_classes:
+        if f"visit_{X}" in defined:
+            continue
+        ctx = symex.Ctx(w, [], [[]])
+        ex = symex.Exec(w, key, fnode, c, tree)
+        ex.ctx = ctx
+        node = sym_for(ex, "node", "py")
+        slf = make_obj(ex, cls_key)
+        ex.assume(w.S.rec(X)(node.t))
+        ex.learn(w.S.rec(X)(node.t))
+        env = {"node": node, "self": slf}
+        for r in cc.get("visit_requires", []):
+            ex.assume(ex.to_bool(eval_spec_expr(ex, r, env)))
+        for i, r in enumerate(cc.get("generic_requires", [])):
+            ex.oblige("pre", f"dispatch[{X}]:generic_requires[{i}]",
+                      ex.to_bool(eval_spec_expr(ex, r, env)), None,
+                      note=f"a {X} node has no visit_{X}: it goes to generic_visit, which needs {r}")
+        res.obligations.extend(ctx.obligations)
+    res.paths = res.returns = 1
+
+
 def register(w, c):
     key = c["key"]
     if "cases" in c:
@@ -135,7 +190,13 @@ def assume_hint(ex, text, env, line, where):
     intermediate assertion - proved here with what is known, and only then used."""
     tree = ast.parse(text.strip(), mode="eval").body
     lemma_preds = {l["pred"] for l in getattr(ex.w, "lemmas", {}).values()}
-    g = ex.to_bool(ex.ev(tree, env))
+    # partial operations inside a hint create no obligations of their own (a lemma instance is a
+    # total formula over spec functions; an assertion is proved as a whole)
+    ex.assuming = getattr(ex, "assuming", 0) + 1
+    try:
+        g = ex.to_bool(ex.ev(tree, env))
+    finally:
+        ex.assuming -= 1
     def lemma_instance(t):
         # lem(...), implies(<guard>, <lemma instance>), <lemma instance> and <lemma instance>
         if isinstance(t, ast.Call) and isinstance(t.func, ast.Name):
@@ -518,6 +579,13 @@ def verify_function(w, key):
     """Generate all obligations for the function `key` from the CURRENT source."""
     c = w.contracts[key]
     res = FnResult(key)
+    if c.get("class_dispatch"):
+        try:
+            _, _, res.sha, _ = extract.find(c["self"])
+            class_dispatch_obligations(w, key, c, res)
+        except (extract.ExtractError, Unsupported) as e:
+            res.unsupported = str(e)
+        return res
     src_key = c.get("source", key)
     try:
         fnode, seg, sha, tree = extract.find(src_key)
@@ -685,6 +753,11 @@ def run_one_path(ex, c, fnode, is_method, res):
         ex.oblige("raises", f"{exc}:must-raise", z3.Not(ex.to_bool(
             eval_spec_expr(ex, cond, cenv2))), line_end, note=cond)
     cenv = contract_env(ex, c, bound, self_obj, old_self, result)
+    # lemma instances (or assertions) over the final state: the locals at the return are visible
+    for text in c.get("post_hints", []):
+        henv = dict(env)
+        henv.update(cenv)
+        assume_hint(ex, text, henv, line_end, "return")
     if c.get("no_calls"):
         ex.oblige_trivial("post", "calls no executor/callback (ghost call log empty)",
                           len(ex.ctx.ghost_calls) == 0, line_end,
